@@ -241,6 +241,17 @@ Definition h6_event_handler_serial (fs : list gfunc) : bool :=
       && negb (existsb (fun o => match o with GGo _ _ => true | _ => false end) (all_ops true f))
   end.
 
+(* ---- H11: SubscribeChan delivers on the run goroutine -------------------- *)
+(* the handler it installs sends on the application's channel in place: no
+   goroutine, no select with a default that could reorder or drop events *)
+Definition h11_subscribechan_sync (fs : list gfunc) : bool :=
+  match find_func fs "SubscribeChan" with
+  | None => true      (* the API was removed *)
+  | Some f =>
+      negb (existsb (fun o => match o with GGo _ _ => true | GSelect _ _ _ _ => true | _ => false end) (all_ops true f))
+      && existsb (fun o => match o with GSend ChUser _ => true | _ => false end) (all_ops false f)
+  end.
+
 (* ---- H7: invocation goroutines watch Done ------------------------------ *)
 Definition h7_op (o : gop) : bool :=
   match o with
@@ -318,7 +329,8 @@ Definition conformance_report (ok : bool) (fs : list gfunc) (exits : list string
    ("h7_inv_goroutines", h7_inv_goroutines fs);
    ("h8_peer_closed_once", h8_peer_closed_once fs);
    ("h9_no_orphan_expect", h9_no_orphan_expect fs);
-   ("h10_reply_dispatch", h10_reply_dispatch d)].
+   ("h10_reply_dispatch", h10_reply_dispatch d);
+   ("h11_subscribechan_sync", h11_subscribechan_sync fs)].
 
 Definition skeleton_conforms_b (ok : bool) (fs : list gfunc) (exits : list string) (d : list (string * string)) : bool :=
   forallb snd (conformance_report ok fs exits d).
